@@ -7,10 +7,13 @@ import cxx2coq
 
 # class -> (define for inst.cpp, AST filter)
 CLASSES = [('HashSet', 'INST_HASHSET'), ('TreeSet', 'INST_TREESET'), ('HashMap', 'INST_HASHMAP'),
-           ('TreeMap', 'INST_TREEMAP'), ('HashMultiMap', 'INST_HASHMULTIMAP'), ('DataTable', 'INST_DATATABLE')]
+           ('TreeMap', 'INST_TREEMAP'), ('HashMultiMap', 'INST_HASHMULTIMAP')]
 # version cells: tag -> how a bump of it looks in the AST
 OWN_CALLS = {'IncVersion': 'version'}                                  # mCrew.IncVersion()
 OWN_INCS = {'GetValueVersion': 'valueVersion', 'GetChangeVersion': 'changeVersion', 'GetRemoveVersion': 'removeVersion'}
+
+
+QUERY_TEMPLATES = ('Find', 'ContainsKey', 'GetLowerBound', 'GetUpperBound', 'GetKeyCount')
 
 
 def walk(n):
@@ -153,6 +156,8 @@ def analyse(cls, define, repo, prev):
         if ids:
             a0, n0 = byname.get(name, (None, set()))
             byname[name] = (ta if a0 is None else (a0 & ta), n0 | tn)
+        if uninst and name in QUERY_TEMPLATES:
+            continue          # heterogeneous-lookup overloads (need a transparent traits class): same body as the non-template overload
         if acc == 'public' and not name.startswith('operator=') and name != 'operator==' and name != cls:
             rows.append({'class': cls, 'method': '%s(%s)%s' % (name, ps, ' const' if cst else ''), 'const': cst,
                          'all': sorted(ta), 'any': sorted(tn), 'uninstantiated': uninst})
